@@ -514,7 +514,10 @@ func (vr *variableResolver) resolve(ctx *ExecutionContext) (*Value, error) {
 						}
 					}
 
-					if pv.IsNil() {
+					if pv.IsNil() && reflect.TypeOf(pv.Interface()) == fnArg {
+						// a nil pointer of exactly the type the function asks for
+						parameters = append(parameters, reflect.ValueOf(pv.Interface()))
+					} else if pv.IsNil() {
 						// Workaround to present an interface nil as reflect.Value
 						var empty any = nil
 						parameters = append(parameters, reflect.ValueOf(&empty).Elem())
